@@ -437,6 +437,13 @@ impl<'a> G<'a> {
     }
 
     fn statement(&mut self, indent: usize, depth: usize, in_func: bool) {
+        if self.cfg.assign_heavy && self.rng.chance(1, 3) {
+            // assignments before, between and after line ends
+            self.assign(indent);
+            if self.rng.chance(1, 2) {
+                return;
+            }
+        }
         let r = self.rng.below(20);
         match r {
             0..=5 => self.text_line(indent),
@@ -847,6 +854,11 @@ pub fn render(rng: &mut Rng, cfg: &GenCfg) -> String {
         if g.rng.chance(1, 3) && g.cfg.temps {
             g.line(0, "~ temp ft = 1");
             g.temps.push("ft".into());
+        }
+        if g.cfg.assign_heavy && g.rng.chance(1, 2) && !g.ints.is_empty() {
+            // a function with a global side effect (called mid-line from text)
+            let v = g.rng.pick(&g.ints).clone();
+            g.line(0, &format!("~ {v} = {v} + 1"));
         }
         if g.cfg.fault_prone && g.rng.chance(1, 6) {
             // no return value: callers get void
